@@ -97,6 +97,28 @@ def run_rows(pid, spec, prefixes, ctxs=CTXS_DEFAULT, regs_fn=None, prep_kw=None,
                     ls.bump('word_generation_failed')
                     continue
                 yield kind, row, w
+        # cross products of the narrow non-register fields (shift types x P/U/W x S x small immediates ...: every value) and
+        # corner values of the wide ones, registers from the usual pool: special cases in the execute code keyed on two or
+        # three fields at once (imm == 0 with one shift type, msb < lsb, rotation x width, wback with a particular index mode)
+        import itertools
+        from vf.props import _decode as D
+        for ri, (kind, row) in enumerate(rows):
+            if ri % spec['of'] != spec['shard']:
+                continue
+            letters = [ch for ch in row.fields if not ((len(row.fields[ch]) == 4 and ch in 'ndmstauhl') or
+                                                      (len(row.fields[ch]) == 3 and ch in 'ndmt') or (ch == 'c' and row.has_cond))]
+            cands = [D.field_candidates(ch, len(row.fields[ch]), row) for ch in letters]
+            total = 1
+            for c in cands:
+                total *= len(c)
+            cap = max(40, spec['per_row'] // 2)
+            combos = list(itertools.product(*cands)) if total <= cap else [tuple(rng.choice(c) for c in cands) for _ in range(cap)]
+            for combo in combos:
+                w = lockstep.gen_word(tabs[kind], row, rng, tries=1, fixed=dict(zip(letters, combo)))
+                if w is None:
+                    continue
+                ls.bump('field_product_words')
+                yield kind, row, w
         # words next to an alias / special-case encoding of another row (all rows of the family, a share per shard)
         wanted = {}
         for kind, row in rows:
@@ -143,6 +165,10 @@ def run_rows(pid, spec, prefixes, ctxs=CTXS_DEFAULT, regs_fn=None, prep_kw=None,
                 r_.spsr_mon = (r_.spsr_mon & ~0x1F) | scen.mode_word(tm)
         if after:
             after(ctx, rng, desc)
+        # hooks may have moved registers: the description (= replay record) shows the state actually stepped
+        r_ = ctx.cpu.registers
+        desc['regs'] = ['%#x' % r_.get(n_) for n_ in range(15)]
+        desc['cpsr'] = '%#010x' % r_.cpsr.value
         ls.res['sets']['contexts'].add('%s/%s/%s' % (ctxkey[0], mode, kind))
         ls.judge(ctx, desc, 'it-' + itpos, keyfn=keyfn)
     ls.res['violations'] = list(ls.viol.values())
